@@ -367,6 +367,11 @@ def check_property(pid, tier_):
         'known_findings_reproduced': sorted(known_hit.keys()),
         'exhaustive': False,
     })
+    if not build_ok or not thms:
+        # the proof did not check on this run: do not claim discharged obligations (schema: the proof keys are
+        # only valid with discharged >= 1); the generic counts below still describe what was explored
+        cov.pop('discharged', None)
+        cov['proof_status'] = 'NOT CHECKED on this run (see "broken")'
     ev = {
         'property_id': pid, 'tier': tier_, 'seed': seed, 'level': 'proof',
         'coverage': cov,
